@@ -209,12 +209,13 @@ def may_join(sym, e, occ_encs):
     return all(o in sym[e] for o in occ_encs)
 
 
-def gen_world(rng, max_side=5, max_agents=7, kinds=None, dead_prob=0.15):
+def gen_world(rng, max_side=5, max_agents=7, kinds=None, dead_prob=0.15, big=None):
     """a random legal world description (state set directly).  About one world in sixteen is BIG: up to 14 rows
     and columns, up to 15 agents (two-digit indices), up to 12 encodings -- what the small scopes never reach"""
-    big = rng.random() < 0.0625
+    if big is None:
+        big = rng.random() < 0.0625
     if big:
-        max_side, max_agents = max(max_side, 14), max(max_agents, 15)
+        max_side, max_agents = max(max_side, 18), max(max_agents, 15)
     rows, cols = rng.randint(1, max_side), rng.randint(1, max_side)
     if big:
         rows, cols = max(rows, rng.randint(8, max_side)), max(cols, rng.randint(1, max_side))
